@@ -367,6 +367,10 @@ func Harness_app_failing_stdout() {
 	} else {
 		verifLabel("site", hFileCmds[ci].name)
 		args = append([]string{"--logfile=" + logName, "--database=" + dbName}, hFileCmds[ci].args...)
+		if hFileCmds[ci].args[0] == "reg" && verifChoose("csv-flag", 2) == 1 {
+			args = append(args, "--csv")
+			verifLabel("csv-flag", "set")
+		}
 	}
 	// a healthy run first: what would be written, and whether the command succeeds at all
 	out, err0 := hApp(-1, args...)
@@ -437,7 +441,7 @@ func Harness_app_compose() {
 		// names one of which is the other followed by a digit, quantities whose digits make
 		// name+quantity coincide ("f1"+"2" = "f"+"12"): whatever is remembered per portion must
 		// not confuse the two
-		foods := [][]string{{}, {"f1", "x"}, {"f", "unknown"}}[i]
+		foods := [][]string{{}, {"f1", "x"}, {"f", "fresh-food-unknown-to-the-book"}}[i]
 		qty := [][]string{{}, {"2", "1"}, {"12", "3"}}[i]
 		for k := 0; k < n; k++ {
 			src += "  " + foods[k] + ": " + qty[k] + "\n"
@@ -574,10 +578,19 @@ func Harness_app_keywords() {
 	verifLabel("keyword", kws[ki])
 	asEnd := verifChoose("bound", 2) == 1
 	onSub := verifChoose("position", 2) == 1
-	today := verifDay("today", layout, 60)
+	today := ""
+	var heads []string
+	if verifBound("concrete", 0) == 1 {
+		// fixed dates: calendar arithmetic on them runs concretely in every explored time zone
+		today = "2021/03/02"
+		all := []string{"2021/01/31", "2021/02/01", "2021/02/23", "2021/03/01", "2021/03/02", "2021/03/03"}
+		heads = []string{all[verifChoose("day", len(all))], all[verifChoose("day", len(all))]}
+	} else {
+		today = verifDay("today", layout, 60)
+		heads = []string{verifDay("day", layout, 60), verifDay("day", layout, 60)}
+	}
 	tToday, _ := time.Parse(layout, today)
 	bound := tToday.AddDate(0, 0, -back[ki])
-	heads := []string{verifDay("day", layout, 60), verifDay("day", layout, 60)}
 	keep := make([]bool, len(heads))
 	mk := func(keep []bool) string {
 		src := ""
@@ -833,4 +846,74 @@ func Harness_app_odd_names() {
 	dbText := name + ":\n  x: 2\nother:\n  " + name + ": 1\n"
 	hApp(-1, append([]string{"--logfile=" + verifFile("log", logText), "--database=" + verifFile("db", dbText)}, cmd...)...)
 	verifCover("ran")
+}
+
+// Harness_app_flag_combinations: every subset of register's presentation and selection flags
+// (given on the sub-command): the command terminates without a panic, and when it succeeds the
+// run with the same flags is repeatable.
+func Harness_app_flag_combinations() {
+	flags := [][]string{{"--no-totals"}, {"--totals-only"}, {"--shorten"}, {"--no-color"}, {"--use-old-reg-reporter"}, {"--csv"}, {"-s", "x"}, {"-g"}, {"-f", "f"}}
+	args := []string{"--logfile=" + verifFile("log", hAppLog), "--database=" + verifFile("db", hAppDB), "reg"}
+	desc := ""
+	for _, f := range flags {
+		if verifChoose("flag "+f[0], 2) == 1 {
+			args = append(args, f...)
+			desc += " " + strings.Join(f, " ")
+		}
+	}
+	verifLabel("flags", desc)
+	hApp(-1, args...)
+	verifCover("ran")
+	bargs := []string{"--logfile=" + verifFile("log", hAppLog), "--database=" + verifFile("db", hAppDB), "bal"}
+	for _, f := range [][]string{{"-c"}, {"--collapse-last"}, {"-s", "x"}} {
+		if verifChoose("bal-flag "+f[0], 2) == 1 {
+			bargs = append(bargs, f...)
+		}
+	}
+	hApp(-1, bargs...)
+}
+
+// Harness_app_partial_report: a per-day report of a log whose LAST day has a malformed line
+// still shows the earlier days exactly as the report of those days alone, and fails.
+func Harness_app_partial_report() {
+	cmds := [][]string{{"reg"}, {"reg", "--use-old-reg-reporter"}, {"reg", "-f", "f"}, {"reg", "-s", "x"}, {"print"}, {"csv", "log"}}
+	cmd := cmds[verifChoose("command", len(cmds))]
+	verifLabel("site", strings.Join(cmd, " "))
+	good := "2021/01/01:\n  f1: 2\n  x: 1\n2021/01/02:\n  f0: 1.5\n"
+	bad := []string{"2021/01/03:\n  f0: 1\n  x: 1x\n", "2021/01/03:\n  broken\n"}[verifChoose("malformed", 2)]
+	db := verifFile("db", hAppDB)
+	o1, e1 := hApp(-1, append([]string{"--no-color", "--logfile=" + verifFile("good", good), "--database=" + db}, cmd...)...)
+	o2, e2 := hApp(-1, append([]string{"--no-color", "--logfile=" + verifFile("bad", good+bad), "--database=" + db}, cmd...)...)
+	verifCover("ran")
+	verifAssert("malformed-input-is-error", e1 == nil && e2 != nil)
+	l1, l2 := verifLines(o1), verifLines(o2)
+	same := len(l2) >= len(l1)
+	for i := 0; same && i < len(l1); i++ {
+		same = l1[i] == l2[i]
+	}
+	verifAssert("earlier-days-shown-as-before", same)
+}
+
+// Harness_app_odd_names_balance: a name with an empty path segment is a different food from its
+// tidy spelling: `report quantity` and the balance leaves show both, with their own amounts.
+func Harness_app_odd_names_balance() {
+	pairs := [][]string{{"fruit//apple", "fruit/apple"}, {"tea//cup/", "tea/cup"}, {"/x", "x"}}
+	p := pairs[verifChoose("pair", len(pairs))]
+	verifLabel("name", p[0])
+	logText := "2021/01/01:\n  " + p[0] + ": 2\n  " + p[1] + ": 1.5\n"
+	base := []string{"--logfile=" + verifFile("log", logText), "--database=" + verifFile("db", hAppDB)}
+	q, e1 := hApp(-1, append(append([]string{}, base...), "report", "quantity")...)
+	b, e2 := hApp(-1, append(append([]string{}, base...), "bal")...)
+	verifCover("ran")
+	verifAssert("odd-names-run", e1 == nil && e2 == nil)
+	has := func(out string, v float64) bool {
+		for _, n := range verifNums(out) {
+			if n == v {
+				return true
+			}
+		}
+		return false
+	}
+	verifAssert("quantity:both-foods-listed", has(q, 2) && has(q, 1.5))
+	verifAssert("balance-leaf:both-foods-listed-with-their-own-amounts", has(b, 2) && has(b, 1.5))
 }
